@@ -351,7 +351,7 @@ def minimise(exe, case, want_oracle_fail):
         r = diff1(exe, c)
         return bool(r.oracle_fail) if want_oracle_fail else bool(r.oracle_fail or r.mismatch)
 
-    small = vlib.shrink_list(ops, fails, max_steps=120)
+    small = vlib.shrink_list(ops, fails, max_steps=60)
     return "S %d %d %s" % (w, nb, ";".join(small))
 
 
@@ -410,8 +410,9 @@ def check(tier):
             rep.notes.append("stage A (corpus + scenarios) already fails; generated histories not run")
         crashes += len(r.crashes)
         n_oracle_fail += len(r.oracle_fail)
-        for (c, i, m, tag) in r.oracle_fail[:60]:
-            if len(seen) >= 5:
+        # shortest failing histories first; at most 6 minimisations
+        for (c, i, m, tag) in sorted(r.oracle_fail, key=lambda t: len(t[0]))[:6]:
+            if len(seen) >= 4:
                 break
             small = minimise(exe, c, True)
             if small in seen:
